@@ -70,13 +70,45 @@ def rejections(model, scope):
                 p = q
             if handler:
                 continue
-            keys = fields_read(cond, f) if cond is not None else set()
-            out.setdefault(owner_construct(f), []).append(('%s[%s]' % (exc, ','.join(sorted(keys))), n))
+            binds = loop_bindings(model, f, n, parents) if cond is not None else [None]
+            for bind in binds:
+                keys = fields_read(cond, f, bind) if cond is not None else set()
+                out.setdefault(owner_construct(f), []).append(('%s[%s]' % (exc, ','.join(sorted(keys))), n))
     return out
 
 
+def loop_bindings(model, f, node, parents):
+    """the raise sits in a ``for`` over a table of the class (``for field_name, expected in cls._get_fields():``): one binding of
+    the loop variables to the constants of each row, so that ``parser[field_name]`` is a key per row; [None] when there is no
+    such loop or the table cannot be evaluated"""
+    loops = []
+    p = node
+    while id(p) in parents:
+        p = parents[id(p)]
+        if isinstance(p, ast.For):
+            loops.append(p)
+    if not loops or f.cls is None:
+        return [None]
+    loop = loops[0]
+    try:
+        from .miniexec import Evaluator, Raised, Unsupported, class_call_hook
+        h = class_call_hook(f.cls, None, model)
+        rows = list(Evaluator({'cls': 'cls', 'self': 'self'}, h, h.name_hook_for(f.module, None)).ev(loop.iter))
+    except Exception:      # pylint: disable=broad-except
+        return [None]
+    names = [loop.target.id] if isinstance(loop.target, ast.Name) else \
+        [t.id if isinstance(t, ast.Name) else None for t in loop.target.elts] if isinstance(loop.target, (ast.Tuple, ast.List)) else []
+    out = []
+    for row in rows[:64]:
+        vals = [row] if isinstance(loop.target, ast.Name) else list(row) if isinstance(row, (tuple, list)) else []
+        bind = {n: v for n, v in zip(names, vals) if n is not None and isinstance(v, str)}
+        if bind:
+            out.append(bind)
+    return out or [None]
 
-def fields_read(expr, f):
+
+
+def fields_read(expr, f, bind=None):
     """the parser keys (``parser['key']``) an expression of function ``f`` reads: directly, through locals assigned from
     them (also as one component of a tuple valued expression), through collections filled in a loop bounded by them, and
     through the values helper methods of the class return"""
@@ -113,6 +145,8 @@ def fields_read(expr, f):
         for x in ast.walk(e):
             if isinstance(x, ast.Subscript) and isinstance(x.slice, ast.Constant) and isinstance(x.slice.value, str):
                 keys.add(x.slice.value)
+            elif isinstance(x, ast.Subscript) and isinstance(x.slice, ast.Name) and bind and x.slice.id in bind:
+                keys.add(bind[x.slice.id])          # parser[field_name] inside a loop over a table of field names
             elif isinstance(x, ast.Name) and x.id not in seen:
                 seen.add(x.id)
                 for d in ast.walk(f.node):
